@@ -387,17 +387,22 @@ def s7(chk: Check, proj: Project, w) -> None:
            "the inject key is stored on a layer that is pushed/popped by hand: when the body raises the layer (and the key) stay on the caller's Context while the error cleanup deletes the data, so a later render with the same Context gets KeyError for the dangling id instead of the default")
     m2, f2 = proj.func("provide", "set_provided_context_var")
     kw = params(f2)[2]
-    pay = local_from(f2, lambda v: isinstance(v, ast.Call) and any(k.arg is None and norm(k.value) == kw for k in v.keywords) and not v.args)
-    okp = False
-    if pay:
-        d = assignments(f2, pay)
-        cls = norm(d[0][1].func) if d and isinstance(d[0][1], ast.Call) else None
-        cd = assignments(f2, cls) if cls else []
-        okp = len(cd) == 1 and isinstance(cd[0][1], ast.Call) and last_attr(cd[0][1].func) == "namedtuple" and len(cd[0][1].args) == 2 and norm(cd[0][1].args[1]) == f"{kw}.keys()"
-    chk.ob("S7", "provide:set_provided_context_var:payload-class-from-this-call", m2.loc(f2), okp if pay else None,
-           f"the payload class is namedtuple(..., {kw}.keys()) built in this call" if okp else
-           "the payload's namedtuple class does not come from this call's keyword names (memoised / shared): a later render of the same tag with other keys raises TypeError or returns the earlier provider's fields")
-
+    nts = [c for c in calls(f2) if last_attr(c.func) == "namedtuple"]
+    key = "provide:set_provided_context_var:payload-class-from-this-call"
+    if len(nts) != 1:
+        chk.ob("S7", key, m2.loc(f2), None if not nts else False,
+               "the payload's namedtuple class does not come from this call's keyword names (memoised / shared): a later render of the same tag with other keys raises TypeError or returns the earlier provider's fields")
+    else:
+        nt = nts[0]
+        names_ok = len(nt.args) >= 2 and norm(nt.args[1]) in (f"{kw}.keys()", f"list({kw}.keys())", f"tuple({kw}.keys())", f"list({kw})", f"tuple({kw})", kw)
+        ren = next((k.value for k in nt.keywords if k.arg == "rename"), None)
+        renamed = ren is not None and not (isinstance(ren, ast.Constant) and ren.value is False)
+        local_cls = isinstance(enclosing_stmt(nt), ast.Assign) and enclosing_stmt(nt) in f2.body
+        okp = names_ok and not renamed and local_cls
+        chk.ob("S7", key, m2.loc(nt), okp,
+               f"the payload class is namedtuple(..., {kw}.keys()) built in this call, with the provider's own keyword names as fields" if okp else
+               (f"`{short(nt)}` lets namedtuple RENAME fields: a provider keyword that is not a valid field name (`class`, `_hidden`, `data-id`) is silently turned into `_0`, `_1`, ..., and inject() returns an object that does not carry the keyword arguments the provider was given (it used to be refused loudly)" if renamed else
+                "the payload's namedtuple class does not come from this call's keyword names (memoised / shared): a later render of the same tag with other keys raises TypeError or returns the earlier provider's fields"))
 
 MANIFEST = {
     "text": "Decides the structural obligations provide/inject needs on every path: inject keys are forwarded completely and unconditionally at every context switch and enumerated on the whole context; the provider holds its own reference for the extent of its body; provided data is deleted only under an emptiness test; component references are released on every exceptional exit; provide code stores only prefixed ids into the Context; inject() has its three exits in order. Also: deferred code never renders with the live input context; inject keys do not outlive their provider; the inject path keeps no memo on the component object; the provider reference is released only after the render's last user hook. Round 4 / triage: deferred hooks run under metadata that carries the live context (known finding F34). Round 5: the layer-wise forwarding form is understood (nearest provider wins), registration is unconditional, error cleanup releases own references only.",
